@@ -358,6 +358,13 @@ func (stub *stub) Start(ctx context.Context) (retErr error) {
 	if err != nil {
 		return err
 	}
+	defer func() {
+		if retErr != nil {
+			// the connection of a failed start gets closed with the mux: forget
+			// it, so that the next Start() connects anew instead of reusing it
+			stub.conn = nil
+		}
+	}()
 
 	rpcm := multiplex.Multiplex(stub.conn)
 	defer func() {
